@@ -72,6 +72,7 @@ import GM.Proof.QuoteSimLists
 import GM.Proof.QuoteSimFE6
 import GM.Props.Blocks
 import GM.Props.C08E2E
+import GM.Props.C08E2ETotal
 
 namespace GM.Props.C08
 open GM GM.LineRec GM.Proof.LineRec
@@ -638,5 +639,24 @@ theorem convert_quote_prefix_good_lines : type_of% @GM.Props.C08E2E.convert_quot
 
 /-- (re-export of `GM.Props.C08E2E.convert_quote_prefix_checked`) **… with decidable hypotheses**: `C08ClassG D`, `NoBracket D` and `goodLinesCheck D` are decidable -/
 theorem convert_quote_prefix_checked : type_of% @GM.Props.C08E2E.convert_quote_prefix_checked := @GM.Props.C08E2E.convert_quote_prefix_checked
+
+/-- (re-export of `GM.Props.C08E2ETotal.convert_quote_prefix_total`) **C08 at HTML level, lists and blank lines (`C08ClassG`), no `[`, given the inline invariant for `D`**: `D` converts, and the
+    block-quoted source converts to `<blockquote>⏎` + that HTML + `</blockquote>⏎` -/
+theorem convert_quote_prefix_total : type_of% @GM.Props.C08E2ETotal.convert_quote_prefix_total := @GM.Props.C08E2ETotal.convert_quote_prefix_total
+
+/-- (re-export of `GM.Props.C08E2ETotal.convert_quote_prefix_lists_total`) the same for `C08ClassF` (lists, no blank line) -/
+theorem convert_quote_prefix_lists_total : type_of% @GM.Props.C08E2ETotal.convert_quote_prefix_lists_total := @GM.Props.C08E2ETotal.convert_quote_prefix_lists_total
+
+/-- (re-export of `GM.Props.C08E2ETotal.convert_quote_prefix_no_final_newline_total`) the same for `C08ClassW` (no final line feed needed) -/
+theorem convert_quote_prefix_no_final_newline_total : type_of% @GM.Props.C08E2ETotal.convert_quote_prefix_no_final_newline_total := @GM.Props.C08E2ETotal.convert_quote_prefix_no_final_newline_total
+
+/-- (re-export of `GM.Props.C08E2ETotal.convert_quote_prefix_raw_leaves_total`) **no inline hypothesis: documents whose leaves are raw blocks** -/
+theorem convert_quote_prefix_raw_leaves_total : type_of% @GM.Props.C08E2ETotal.convert_quote_prefix_raw_leaves_total := @GM.Props.C08E2ETotal.convert_quote_prefix_raw_leaves_total
+
+/-- (re-export of `GM.Props.C08E2ETotal.convert_quote_prefix_good_lines_total`) **no inline hypothesis: any block structure of the class, plain-text inline content** (`GoodBlocks`) -/
+theorem convert_quote_prefix_good_lines_total : type_of% @GM.Props.C08E2ETotal.convert_quote_prefix_good_lines_total := @GM.Props.C08E2ETotal.convert_quote_prefix_good_lines_total
+
+/-- (re-export of `GM.Props.C08E2ETotal.convert_quote_prefix_checked_total`) **… all hypotheses decidable** (`C08ClassG D`, `NoBracket D`, `goodLinesCheck D`) -/
+theorem convert_quote_prefix_checked_total : type_of% @GM.Props.C08E2ETotal.convert_quote_prefix_checked_total := @GM.Props.C08E2ETotal.convert_quote_prefix_checked_total
 
 end GM.Props.C08
